@@ -92,6 +92,102 @@ def to_real(e):
     return z3.ToReal(e) if e.sort() == I else e
 
 
+# ---- linear abstraction: every non-linear monomial / quotient is replaced by a constant (consistently), so that
+# feasibility checks and first-stage obligation checks stay in linear arithmetic + uninterpreted functions.
+# Replacing a term by an unconstrained constant relaxes the formula: abstract-unsat implies unsat.
+_ABS = {}    # id -> (term, abstracted term)
+_NLC = {}    # id of a normalised non-linear term -> (term, constant)
+
+
+def _nl_const(t):
+    key = t.get_id()
+    hit = _NLC.get(key)
+    if hit is None:
+        c = z3.Const('nl!%d' % len(_NLC), t.sort())
+        hit = _NLC[key] = (t, c)
+    return hit[1]
+
+
+def _is_num(c):
+    return z3.is_rational_value(c) or z3.is_int_value(c)
+
+
+def _abs_product(t):
+    """t is a MUL/DIV/POWER node that is not linear: sum-of-monomials form, each monomial abstracted"""
+    n = som(t)
+    if not z3.is_app(n):
+        return n
+    k = n.decl().kind()
+    if k == z3.Z3_OP_ADD:
+        return z3.Sum([_abs_mono(c) for c in n.children()])
+    return _abs_mono(n)
+
+
+def _abs_mono(m):
+    if not z3.is_app(m) or m.num_args() == 0:
+        return m
+    k = m.decl().kind()
+    if k == z3.Z3_OP_MUL:
+        nums = [c for c in m.children() if _is_num(c)]
+        rest = [c for c in m.children() if not _is_num(c)]
+        if len(rest) <= 1:
+            inner = absterm(rest[0]) if rest else None
+            if inner is None:
+                return m
+            return nums[0] * inner if nums else inner
+        body = rest[0]
+        for c in rest[1:]:
+            body = body * c
+        k_ = _nl_const(z3.simplify(body))
+        return nums[0] * k_ if nums else k_
+    if k in (z3.Z3_OP_DIV, z3.Z3_OP_POWER, z3.Z3_OP_IDIV, z3.Z3_OP_MOD):
+        if k == z3.Z3_OP_DIV and _is_num(m.arg(1)):
+            return absterm(m.arg(0)) / m.arg(1)
+        return _nl_const(m)
+    return absterm(m)
+
+
+def absterm(t):
+    tid = t.get_id()
+    hit = _ABS.get(tid)
+    if hit is not None:
+        return hit[1]
+    if not z3.is_app(t) or t.num_args() == 0:
+        r = t
+    else:
+        k = t.decl().kind()
+        if k == z3.Z3_OP_MUL:
+            non = [c for c in t.children() if not _is_num(c)]
+            if len(non) > 1:
+                r = _abs_product(t)
+            else:
+                r = t.decl()(*[absterm(c) for c in t.children()])
+        elif k in (z3.Z3_OP_DIV, z3.Z3_OP_IDIV, z3.Z3_OP_MOD):
+            if _is_num(t.arg(1)):
+                r = t.decl()(absterm(t.arg(0)), t.arg(1))
+            else:
+                r = _abs_product(t)
+        elif k == z3.Z3_OP_POWER:
+            r = _abs_product(t)
+        else:
+            ch = t.children()
+            new = [absterm(c) for c in ch]
+            if all(a.get_id() == b.get_id() for a, b in zip(ch, new)):
+                r = t
+            elif k == z3.Z3_OP_AND:
+                r = z3.And(new)
+            elif k == z3.Z3_OP_OR:
+                r = z3.Or(new)
+            elif k == z3.Z3_OP_ADD:
+                r = z3.Sum(new)
+            elif k == z3.Z3_OP_DISTINCT:
+                r = z3.Distinct(new)
+            else:
+                r = t.decl()(*new)
+    _ABS[tid] = (t, r)
+    return r
+
+
 def lift(x):
     """python / numpy scalar or SV/SB -> z3 term"""
     if isinstance(x, SV):
@@ -133,6 +229,8 @@ class Ctx:
         self.trace = []
         self.pc = []          # branch conditions taken
         self.assumes = []     # scenario assumptions + stub contracts
+        self.pc_lin = []      # the same, with non-linear monomials abstracted (see absterm)
+        self.assumes_lin = []
         self.checks = 0
         self.solver_time = 0.0
         self.model = None
@@ -160,14 +258,18 @@ class Ctx:
         return SV(c)
 
     # -- solver
-    def check(self, *extra, defs=False, timeout_ms=None, npc=None, nas=None):
+    def check(self, *extra, defs=False, timeout_ms=None, npc=None, nas=None, exact=False):
+        """exact=False: linear abstraction of every assertion (unsat is conclusive, sat is a candidate);
+        exact=True: the real terms (plus, with defs=True, the definitions withheld by purify)"""
         t = time.time()
         s = z3.Solver()
         s.set('timeout', timeout_ms or TIMEOUT_MS)
         s.set('rlimit', RLIMIT)
-        fs = list(self.assumes if nas is None else self.assumes[:nas])
-        fs.extend(self.pc if npc is None else self.pc[:npc])
-        fs.extend(extra)
+        exact = exact or defs
+        A, P = (self.assumes, self.pc) if exact else (self.assumes_lin, self.pc_lin)
+        fs = list(A if nas is None else A[:nas])
+        fs.extend(P if npc is None else P[:npc])
+        fs.extend(extra if exact else [absterm(e) for e in extra])
         if defs:
             fs.extend(DEFS)
         if fs:
@@ -178,25 +280,31 @@ class Ctx:
         self.last = s
         return r
 
+    def _sat_by_model(self, lin):
+        if self.model is not None:
+            ev = self.model.eval(lin, model_completion=True)
+            if not z3.is_true(ev):
+                self.model = None
+
     def assume(self, c):
         c = c.e if isinstance(c, SB) else c
         if isinstance(c, (bool, np.bool_)):
             if not c:
                 raise PathAbort()
             return
-        self.assumes.append(c)
-        if self.model is not None:
-            ev = self.model.eval(c, model_completion=True)
-            if not z3.is_true(ev):
-                self.model = None
+        self.fact(c)
 
     def fact(self, c):
-        """add a stub contract / lemma; the cached model is dropped if it does not satisfy it"""
+        """add an assumption / stub contract / lemma; the cached model is dropped if it does not satisfy it"""
+        lin = absterm(c)
         self.assumes.append(c)
-        if self.model is not None:
-            ev = self.model.eval(c, model_completion=True)
-            if not z3.is_true(ev):
-                self.model = None
+        self.assumes_lin.append(lin)
+        self._sat_by_model(lin)
+
+    def _push(self, cond, lin, v):
+        self.trace.append(v)
+        self.pc.append(cond if v else z3.Not(cond))
+        self.pc_lin.append(lin if v else z3.Not(lin))
 
     def mark_pos(self, term):
         self.pos[term.get_id()] = term
@@ -240,15 +348,15 @@ class Ctx:
         return r
 
     def _branch(self, cond):
+        lin = absterm(cond)
         i = len(self.trace)
         if i < len(self.prefix):
             v = self.prefix[i]
-            self.trace.append(v)
-            self.pc.append(cond if v else z3.Not(cond))
+            self._push(cond, lin, v)
             return v
         guess = None
         if self.model is not None:
-            ev = self.model.eval(cond, model_completion=True)
+            ev = self.model.eval(lin, model_completion=True)
             if z3.is_true(ev):
                 guess = True
             elif z3.is_false(ev):
@@ -266,8 +374,7 @@ class Ctx:
                         # cannot exclude the true branch: explore it as well (over-approximation)
                         self.unknown_feas += 1
                         self.pending.append(self.trace + [True])
-                    self.pc.append(z3.Not(cond))
-                    self.trace.append(False)
+                    self._push(cond, lin, False)
                     return False
                 if r == z3.unsat and r2 == z3.unsat:
                     raise PathAbort()
@@ -281,8 +388,7 @@ class Ctx:
                     guess = True
                 else:
                     guess = False
-                self.trace.append(guess)
-                self.pc.append(cond if guess else z3.Not(cond))
+                self._push(cond, lin, guess)
                 return guess
         other = z3.Not(cond) if guess else cond
         r = self.check(other)
@@ -290,8 +396,7 @@ class Ctx:
             if r == z3.unknown:
                 self.unknown_feas += 1
             self.pending.append(self.trace + [not guess])
-        self.trace.append(guess)
-        self.pc.append(cond if guess else z3.Not(cond))
+        self._push(cond, lin, guess)
         return guess
 
     def concretize(self, sv, lo=None, hi=None):
@@ -343,8 +448,8 @@ class Ctx:
         self.trace.append(idx)
         c = v.e == idx
         self.pc.append(c)
-        if self.model is not None and not z3.is_true(self.model.eval(c, model_completion=True)):
-            self.model = None
+        self.pc_lin.append(c)
+        self._sat_by_model(c)
         return values[idx]
 
 
